@@ -126,6 +126,8 @@ FIELD_VALUES = [
     ("long", "word " * 30),
     ("bool", False),
 ]
+# values that compare (and hash) equal across types but have different JSON encodings
+NUMERIC_VALUES = [("1", 1), ("1.0", 1.0), ("true", True), ("0", 0), ("0.0", 0.0), ("-0.0", -0.0), ("false", False), ("text-1", "1")]
 FIELD_NAMES = ["k", "zeta", "Alpha", "reason", "exception", "task", "action"]
 TIMESTAMPS = [0.0, 1425356800.5, 1425356800.000001, 1.0e9 + 0.999999, 86399.25]
 
@@ -160,10 +162,13 @@ def body_E1(ctx):
         m["message_type"] = ""  # Message.log() without a type
     nfields = ctx.choose(sh.get("max_fields", 1) + 1, "number of fields")
     names_left = list(FIELD_NAMES)
+    values = FIELD_VALUES
+    if sh.get("numeric"):
+        names_left, values = ["k", "zeta"], NUMERIC_VALUES
     labels = []
     for i in range(nfields):
         name = names_left.pop(ctx.choose(len(names_left), "field name"))
-        lab, v = FIELD_VALUES[ctx.choose(len(FIELD_VALUES), "field value")]
+        lab, v = values[ctx.choose(len(values), "field value")]
         m[name] = v
         labels.append((name, lab))
     ts = datetime.utcfromtimestamp(m["timestamp"])
@@ -309,10 +314,10 @@ OBLIGATIONS = [
         "X",
         desc="pretty_format / compact_format vs the documented rendering rule on corner messages",
         functions=["pretty_format", "compact_format", "_render_timestamp"],
-        shards=lambda tier: [dict(b, prefix=p) for b in ([{"max_fields": 1}] if tier == "quick" else [{"max_fields": 1}, {"max_fields": 2, "levels": 2, "stamps": 2}]) for p in enumerate_prefixes(body_E1, "X", {}, b, 2 if tier == "quick" else 3)],
+        shards=lambda tier: [dict(b, prefix=p) for b in ([{"max_fields": 1}, {"max_fields": 2, "levels": 1, "stamps": 1, "numeric": 1}] if tier == "quick" else [{"max_fields": 1}, {"max_fields": 2, "levels": 2, "stamps": 2}, {"max_fields": 2, "levels": 2, "stamps": 2, "numeric": 1}]) for p in enumerate_prefixes(body_E1, "X", {}, b, 2 if tier == "quick" else 3)],
         twin=[{"max_fields": 1, "twin_label": "action-with-field"}],
         timeout={"quick": 100, "thorough": 900},
-        bounds={"quick": "3 task levels x 5 timestamps x {message, action x 3 statuses, no type field, empty action_type, empty message_type} x <= 1 extra field (7 names x 8 corner values)", "thorough": "additionally <= 2 extra fields with 2 levels x 2 timestamps"},
+        bounds={"quick": "3 task levels x 5 timestamps x {message, action x 3 statuses, no type field, empty action_type, empty message_type} x <= 1 extra field (7 names x 8 corner values); <= 2 fields over values that are equal across types but encode differently (1, 1.0, true, 0, 0.0, -0.0, false, \"1\")", "thorough": "additionally <= 2 extra fields with 2 levels x 2 timestamps"},
     ),
     Ob(
         "E2",
